@@ -274,6 +274,9 @@ func (s *Stats) Known(id, what string) {
 // length) is kept, which for rapid streams is the shrunk one and for enumerations
 // the shortest.
 func (s *Stats) Violate(stream string, c any, f *Failure) {
+	if f == nil {
+		f = Failf("unstable", "the case failed, but not again when re-checked after minimisation (state leaking between cases or a non-deterministic oracle)")
+	}
 	raw, err := json.Marshal(c)
 	if err != nil {
 		raw, _ = json.Marshal(fmt.Sprintf("%#v", c))
